@@ -7,7 +7,7 @@ git -C /repo worktree remove --force $WT 2>/dev/null
 git -C /repo worktree add --detach $WT HEAD -q || exit 1
 for d in $(ls -d /tmp/mut/${ONLY:-C*}/); do
   id=$(basename $d)
-  for m in m1 m2 m3 m4 m5 m6 m7 m8 m9 m10 m11 m12 m13 m14 m15 m16 m17 m18 m19 m20 m21 m22 m23 m24; do
+  for m in m1 m2 m3 m4 m5 m6 m7 m8 m9 m10 m11 m12 m13 m14 m15 m16 m17 m18 m19 m20 m21 m22 m23 m24 m25; do
     [ -f $d/$m.diff ] || continue; [ -d /verif/seeded/$id-$m ] && continue
     cd $WT && git checkout -q -- . && git clean -fdq
     cp $d/${m}_demo_test.go $WT/seeded_${id}_${m}_demo_test.go
